@@ -350,7 +350,7 @@ def run_tlc(spec, cfg, env, workers=8, timeout=3000, metaname="tlc", extra=(), x
     return res
 
 
-_line_re = re.compile(r'^<<"([A-Z]+)", (?:"([A-Za-z0-9_]+)", )?"(.*)">>$')
+_line_re = re.compile(r'^<<"([A-Z][A-Z0-9_]*)", (?:"([A-Za-z0-9_]+)", )?"(.*)">>$')
 
 
 def tlc_records(res, only=None):
